@@ -143,7 +143,7 @@ func init() {
 			checkC02(ctx, &sc)
 			return
 		}
-		n := ctx.N(2000, 100000)
+		n := ctx.N(16000, 200000)
 		for i := 0; i < n; i++ {
 			sc := genC02(ctx.Rng, pick(ctx.Rng, "hwmon", "hwmon", "hwmon", "file", "sim"))
 			if i < 2 {
@@ -151,7 +151,7 @@ func init() {
 			}
 			checkC02(ctx, sc)
 		}
-		nc := ctx.N(12, 300)
+		nc := ctx.N(40, 600)
 		for i := 0; i < nc; i++ {
 			checkC02(ctx, genC02(ctx.Rng, "cmd"))
 		}
